@@ -50,3 +50,73 @@ def c04(sess):
                                         % (op[1], obs["raised"][0], d[0] if d else "?"), "step": i})
         prev = obs
     return out
+
+
+CONFORMANT = ("boot", "poll", "ack", "ack-empty", "report", "request", "render", "rerun", "persist")
+
+
+def c18(sess):
+    """History is append-only; started records keep id/route/ctxs.in/prev; decided records are frozen."""
+    out = []
+    prev = None
+    for i, (op, obs) in enumerate(sess.trace):
+        cur = obs["state"]["state"]
+        if prev is not None:
+            for name in ("contexts", "routes"):
+                a, b = prev[name], cur[name]
+                if len(b) < len(a) or b[: len(a)] != a:
+                    out.append({"what": "%s is not an extension of the previous %s after %s" % (name, name, op[0]),
+                                "step": i})
+            a, b = prev["sequence"], cur["sequence"]
+            if len(b) < len(a):
+                out.append({"what": "task execution records were removed by %s" % op[0], "step": i})
+            for k in range(min(len(a), len(b))):
+                ra, rb = a[k], b[k]
+                for f in ("id", "route", "prev"):
+                    if ra[f] != rb[f]:
+                        out.append({"what": "record %d (%s): field %s changed from %r to %r after %s"
+                                            % (k, ra["id"], f, ra[f], rb[f], op[0]), "step": i})
+                if ra["ctxs"]["in"] != rb["ctxs"]["in"]:
+                    out.append({"what": "record %d (%s): inbound contexts changed from %r to %r after %s"
+                                        % (k, ra["id"], ra["ctxs"]["in"], rb["ctxs"]["in"], op[0]), "step": i})
+                if sess.tags[i] in CONFORMANT and ra.get("next"):
+                    if ra.get("status") != rb.get("status") or ra["next"] != rb["next"]:
+                        out.append({"what": "record %d (%s) whose transitions were decided changed: status %s->%s, "
+                                            "next %r->%r after %s" % (k, ra["id"], ra.get("status"), rb.get("status"),
+                                                                      ra["next"], rb["next"], op[0]), "step": i})
+        prev = cur
+    return out
+
+
+# ---------------------------------------------------------------- relational monitors (twin runs)
+
+def _mk_sim(definition, inputs, oracle, sched, **kw):
+    from harness import provider, sim
+    sess = provider.Session(definition, inputs, with_model=False)
+    return sim.Sim(sess, oracle, sched, **kw)
+
+
+def c08_scenario(definition, inputs, oracle, scheds):
+    """Same scenario under several completion orders: the final status must agree; when succeeded,
+    so must the executed-record multiset, the published snapshots (as a multiset) and the output."""
+    finals = []
+    for sc in scheds:
+        sm = _mk_sim(definition, inputs, oracle, sc)
+        try:
+            sm.run()
+            finals.append((sc, sm.final(), [op for op, _ in sm.s.trace]))
+        finally:
+            sm.s.close()
+    out = []
+    base_sc, base, base_ops = finals[0]
+    for sc, f, ops in finals[1:]:
+        if f["status"] != base["status"]:
+            out.append({"what": "final status depends on completion order: %s vs %s" % (base["status"], f["status"]),
+                        "ops": ops, "ops_other": base_ops, "step": len(ops) - 1})
+        elif f["status"] == "succeeded":
+            for k in ("records", "published", "output"):
+                if f[k] != base[k]:
+                    out.append({"what": "%s depends on completion order: %r vs %r" % (k, base[k], f[k]),
+                                "ops": ops, "ops_other": base_ops, "step": len(ops) - 1})
+                    break
+    return out, finals
